@@ -20,7 +20,7 @@ fn churn(n: usize) -> String {
     )
 }
 
-pub const TEMPLATE_COUNT: usize = 21;
+pub const TEMPLATE_COUNT: usize = 22;
 
 pub fn template(rng: &mut Rng, which: usize) -> String {
     let n = 5 + rng.below(60) as usize;
@@ -176,6 +176,27 @@ pub fn template(rng: &mut Rng, which: usize) -> String {
              (tag 1) (tag2 1) (tag3 1) (tag4 1) {}
              (tag 2) (tag2 2) (eq? (cdr (cdr (tag2 3))) 'millifurlong) (tag3 2) (tag4 2) {} (tag {m}) (tag3 {m}) (tag4 {m})",
             churn(20 + n), churn(10 + m)
+        ),
+        // the VALUE of a quasiquoted vector whose unquoted elements are freshly allocated (lists, strings, closures,
+        // vectors, nested quasiquoted vectors) kept in a global, in a closure variable (set!), in a pair, and returned
+        // from a procedure; garbage is churned, then the elements are read back. VPUSH builds these vectors; the
+        // vector left in %acc must be a reference the collector can follow (fix 43d0413: it was the dereferenced
+        // vector, and a global slot holding one is not marked)
+        21 => format!(
+            "(define (qmk x) `#(1 ,x))
+             (define qv `#(,(list 1 {n}) ,(string-append \"a\" \"b\") ,(lambda () {m}) #(in ,(list {m}))))
+             (define qu (qmk (list 5 {n})))
+             (define qbox (let ((held #f)) (lambda (y) (if y (set! held `#(,(list y) ,(make-string 2 #\\q))) held))))
+             (qbox {m})
+             (define qp (cons `#(,(list 'p {n})) `#(,(vector {m} (list {m})))))
+             (define (qnest x) `#(,(qmk x) #(,(qmk (list x)))))
+             (define qn (qnest (list {m} {n})))
+             {}
+             (vector-ref qv 0) ((vector-ref qv 2)) (vector-ref (vector-ref qv 3) 1) qu (qbox #f) qp qn
+             {}
+             qv qu (qbox #f) qp (vector-ref (qmk (list 9)) 1) (vector-ref (vector-ref qn 0) 1)
+             (set! qv `#(,(list {n} {m}))) {} qv (vector-ref (vector-ref (vector-ref qn 1) 0) 1)",
+            churn(20 + n), churn(10 + m), churn(8 + m)
         ),
         // mixed, with continuation captured inside map and re-entered once
         _ => format!(
